@@ -249,6 +249,10 @@ pub broadcast proof fn lemma_fsum_ref_is_fsum(rem: Seq<&f64>, s: Seq<f64>, k: in
 {
     if k > 0 { lemma_fsum_ref_is_fsum(rem, s, k - 1); }
 }
+// Iterator::all: NOT specified (the result is an arbitrary boolean): code whose outcome depends on it
+// can only be proved if it is correct for both answers
+#[verifier::external_body]
+pub fn __all<I: Iterator, F: FnMut(I::Item) -> bool>(it: I, f: F) -> (r: bool) { unimplemented!() }
 
 #[verifier::external_body] pub struct Node { }
 // std: `impl<T> From<Vec<T>> for Box<[T]>` (into_boxed_slice)
